@@ -76,6 +76,25 @@ func ruleP13Translate(p *Prog, r *Report) {
 	}
 	// the query: the struct value passed to service.Filter
 	fc := callsTo(f, filter)
+	// the same call written on several exits (an early `return Filter(rs, qry)`): same records,
+	// same query variable
+	var moreCalls []ssa.CallInstruction
+	if len(fc) > 1 {
+		same := true
+		for _, c := range fc[1:] {
+			a, b := plainDeref(fc[0].Common().Args[1]), plainDeref(c.Common().Args[1])
+			ua, okA := a.(*ssa.UnOp)
+			ub, okB := b.(*ssa.UnOp)
+			if !okA || !okB || ua.Op != token.MUL || ub.Op != token.MUL || cellOf(ua.X) == nil || cellOf(ua.X) != cellOf(ub.X) || strip(c.Common().Args[0]) != strip(fc[0].Common().Args[0]) {
+				same = false
+			}
+		}
+		if same {
+			// the last one stands for all; the others are checked against the stores below
+			moreCalls = fc[:len(fc)-1]
+			fc = fc[len(fc)-1:]
+		}
+	}
 	if len(fc) != 1 {
 		r.undecided(rule, "filter-call", p.pos(f.Pos()), "expected exactly one call of service.Filter in ApplyFilter")
 		return
@@ -103,7 +122,40 @@ func ruleP13Translate(p *Prog, r *Report) {
 	}
 	r.check(strip(fc[0].Common().Args[0]) == ssa.Value(f.Params[2]), rule, "filter-call:records", p.instrPos(fc[0]), "Filter receives the records given", "Filter is not applied to the records given")
 	for _, ret := range returnsOf(f) {
-		r.check(strip(retResult(ret, 0)) == fc[0].Value(), rule, "filter-call:returned", p.instrPos(ret), "returns Filter's result", "ApplyFilter does not return the filtered records")
+		okRet := strip(retResult(ret, 0)) == fc[0].Value()
+		for _, c := range moreCalls {
+			if strip(retResult(ret, 0)) == c.Value() {
+				okRet = true
+			}
+		}
+		r.check(okRet, rule, "filter-call:returned", p.instrPos(ret), "returns Filter's result", "ApplyFilter does not return the filtered records")
+	}
+	// an earlier Filter call sees every assignment that is not excluded by its own condition
+	for _, c := range moreCalls {
+		for _, ref := range *qry.Referrers() {
+			fa, ok := ref.(*ssa.FieldAddr)
+			if !ok {
+				continue
+			}
+			for _, r2 := range *fa.Referrers() {
+				st, ok := r2.(*ssa.Store)
+				if !ok {
+					continue
+				}
+				before := st.Block() == c.Block() && instrIndex(st) < instrIndex(c) || st.Block() != c.Block() && reachableFrom(st.Block(), nil)[c.Block()]
+				excluded := false
+				for _, g1 := range guardsOf(st.Block()) {
+					for _, g2 := range guardsOf(c.Block()) {
+						if g1.Cond == g2.Cond && g1.Pol != g2.Pol {
+							excluded = true
+						}
+					}
+				}
+				if !before && !excluded {
+					r.bad(rule, "filter-call:early", p.instrPos(c), "this Filter call runs before the query assignment at %s takes effect", p.instrPos(st))
+				}
+			}
+		}
 	}
 	// the shortcut period: a local closure's result tested for nil
 	var shortcut ssa.Value
@@ -475,6 +527,68 @@ func ruleP13Clauses(p *Prog, r *Report) {
 					if expanded > 0 {
 						continue
 					}
+				}
+			}
+			// several clauses merged into one boolean (`ok := (a == nil || …) && (…)`; `if !ok
+			// { continue }`): every way the skip condition comes true is a skip edge of its own
+			if hasPhi(t.Cond) {
+				var alts [][]Guard
+				var okA bool
+				if cs == 0 {
+					alts, okA = truthAlts(t.Cond, 0)
+				} else {
+					alts, okA = falseAlts(t.Cond, 0)
+				}
+				if okA && len(alts) > 1 {
+					for _, alt := range alts {
+						d := "=>?"
+						var pre []string
+						nDesc := 0
+						for _, gd := range alt {
+							if isLoopGuard(gd) {
+								continue
+							}
+							if x, isNil, ok := nilFact(gd); ok {
+								if !isNil {
+									pre = append(pre, "has:"+qField(x))
+								}
+								continue // an absent clause that let the record pass
+							}
+							n, recv, args, _ := methodCall(gd.Cond)
+							if (n == "IsEqualTo" || n == "IsAfterOrEqual") && len(args) == 1 {
+								if gd.Pol {
+									continue // an earlier clause that passed
+								}
+								nDesc++
+								switch {
+								case n == "IsEqualTo" && ((qField(recv) == "AtDate" && isRecDate(args[0])) || (qField(args[0]) == "AtDate" && isRecDate(recv))):
+									d = "has:AtDate=>date!=AtDate"
+								case n == "IsAfterOrEqual" && qField(recv) == "BeforeOrEqual" && isRecDate(args[0]):
+									d = "has:BeforeOrEqual=>date>BeforeOrEqual"
+								case n == "IsAfterOrEqual" && isRecDate(recv) && qField(args[0]) == "AfterOrEqual":
+									d = "has:AfterOrEqual=>date<AfterOrEqual"
+								}
+								continue
+							}
+							nDesc += 2 // something else decides as well
+						}
+						hasOwn := false
+						for _, h := range pre {
+							if strings.HasPrefix(d, h+"=>") {
+								hasOwn = true
+							}
+						}
+						if nDesc != 1 || !hasOwn {
+							d = strings.Join(pre, ",") + "=>?"
+						}
+						if _, ok := want[d]; ok {
+							seen[d] = true
+							r.ok(rule, "skip:"+d, p.instrPos(t), "one way into the merged skip edge is the %s", want[d])
+						} else {
+							r.bad(rule, "skip:"+d, p.instrPos(t), "a record is skipped under a condition that is none of the five clauses: %s", d)
+						}
+					}
+					continue
 				}
 			}
 			d := clause(pb, t, cs)
@@ -1138,4 +1252,17 @@ func caseMappingIn(v ssa.Value, depth int) string {
 		return caseMappingIn(x.X, depth+1)
 	}
 	return ""
+}
+
+// hasPhi: the boolean is (a negation of) a phi, i.e. an && / || expression kept in a value.
+func hasPhi(v ssa.Value) bool {
+	for i := 0; i < 4; i++ {
+		if u, ok := v.(*ssa.UnOp); ok && u.Op == token.NOT {
+			v = u.X
+			continue
+		}
+		break
+	}
+	_, ok := v.(*ssa.Phi)
+	return ok
 }
